@@ -65,6 +65,45 @@ def _replay_state(st):
     return problems
 
 
+def _independent_copies(st):
+    """One independent copy of the base tracker per key, whatever state the base tracker carries: with a base
+    tracker that holds mutable state (SlidingWindowTracker's buffer, a list) every key must still behave like a
+    stand-alone tracker fed the values of that key since it first appeared (0 where an update omits it)."""
+    import copy
+    import math
+    from ixai.utils.tracker import SlidingWindowTracker, MultiValueTracker
+    from ixai.utils.tracker.base import Tracker
+
+    class ListTracker(Tracker):
+        def __init__(self):
+            super().__init__()
+            self.items = []
+
+        def update(self, v):
+            self.items.append(v)
+            self.tracked_value = sum(self.items) + 0.5 * len(self.items)
+            self.N += 1
+            return self
+
+    problems = []
+    since = st.get("since") or {}
+    for name, base in (("SlidingWindowTracker(2)", lambda: SlidingWindowTracker(2)), ("list-state tracker", ListTracker)):
+        m = MultiValueTracker(base())
+        for u in st["upds"]:
+            m.update({k: float(v) for k, v in (u or {}).items()})
+        got = m.get()
+        for k, seq in since.items():
+            ref = base()
+            for v in seq:
+                ref.update(float(v))
+            want = ref.get()
+            g = got.get(k)
+            if g is None or not (abs(float(g) - float(want)) <= 1e-9 or (math.isnan(float(g)) and math.isnan(float(want)))):
+                problems.append(("independent_copy", "%s key %s: %r, stand-alone tracker fed %s gives %r" % (name, k, g, seq, want)))
+                break
+    return problems
+
+
 def run(tier, seed):
     ctx = core.Ctx(PID, tier, seed)
     quick = tier == "quick"
@@ -90,6 +129,10 @@ def run(tier, seed):
         for (clause, got, want) in _replay_state(st):
             ctx.violation("replay." + clause, "kind=%s updates=%s" % (st["kind"], st["upds"]),
                           "implementation %s, specification %s" % (got, want), st)
+        if st["kind"] == "welford":       # once per behaviour
+            for (clause, detail) in _independent_copies(st):
+                ctx.violation("replay." + clause, "updates=%s" % st["upds"], detail, st)
+            ctx.count_clause("replay.independent_copy")
         ctx.count_clause("replay.mv", 6)
         if len(st["upds"]) >= 2:
             ctx.nontrivial(("A", st["kind"], str(st["upds"])))
